@@ -27,9 +27,11 @@ def path_steps(rec):
     segs = [(x[:-1], x[-1]) for x in rec.pos[1].split(",")]
     ovs = rec.pos[2].split(",")
     n = len(segs)
-    if n == 1:
-        return []
     undef = (len(ovs) == 1 and ovs[0] == "*")
+    if n == 1 and undef:
+        return []
+    # (as many overlaps as segments: circular -- also for a single segment, which then runs over
+    #  a link from the segment end to the same segment)
     circular = (len(ovs) == n)
     out = []
     for i in range(n):
